@@ -97,6 +97,9 @@ class GrounderHelper:
         self._grounded_actions: Dict[
             Tuple[str, Tuple[FNode, ...]], Optional[Action]
         ] = {}
+        # names of the grounded actions created so far; they are not in self._problem,
+        # so they must be given to get_fresh_name to keep the names of the groundings distinct
+        self._grounded_actions_names: Set[str] = set()
         env = problem.environment
         if prune_actions:
             self._simplifier = Simplifier(env, problem)
@@ -141,7 +144,11 @@ class GrounderHelper:
                     or self._grounding_actions_map.get(action, None) is not None
                 ):
                     new_action = create_action_with_given_subs(
-                        self._problem, action, self._simplifier, {}
+                        self._problem,
+                        action,
+                        self._simplifier,
+                        {},
+                        self._grounded_actions_names,
                     )
                 else:
                     new_action = None
@@ -150,8 +157,14 @@ class GrounderHelper:
                     zip(action.parameters, list(parameters))
                 )
                 new_action = create_action_with_given_subs(
-                    self._problem, action, self._simplifier, subs
+                    self._problem,
+                    action,
+                    self._simplifier,
+                    subs,
+                    self._grounded_actions_names,
                 )
+            if new_action is not None:
+                self._grounded_actions_names.add(new_action.name)
             self._grounded_actions[key] = new_action
             return new_action
 
